@@ -162,10 +162,16 @@ fn drop_dictionary_okuri(word: &str, speech: &NoteSpeech) -> String {
         NoteSpeech::Verb(form, _) => {
             let okuri = form_to_skk_okuri(form);
 
-            if word.len() == okuri.len() {
+            // 語が辞書形の送り仮名より短い場合や、切り出し位置が文字境界でない場合でもpanicしないようにする
+            let mut end = word.len().saturating_sub(okuri.len());
+            while !word.is_char_boundary(end) {
+                end -= 1;
+            }
+
+            if end == 0 {
                 word.chars().next().unwrap().to_string()
             } else {
-                word[..(word.len() - okuri.len())].to_string()
+                word[..end].to_string()
             }
         }
         NoteSpeech::Adjective(_) => word[..(word.len() - "い".len())].to_string(),
